@@ -691,6 +691,8 @@ def stage_gw(ctx, profiles, stall_props=("C13", "C15", "C19"), monitor_props=Non
             ctx.add_violation("replay of recorded finding %s crashed the gateway/harness: %s" % (f["id"], m.group(0) if m else out[:400]),
                               {"kind": "crash", "history": hp, "log": out[:5000]})
             continue
+        if os.path.isdir(d):
+            subprocess.run(["cp", hp, os.path.join(d, "replay.history.json")])   # so that a violation found in it has its history
         viols, stats, stalls = run_traces(ctx, d)
         before = len(ctx.known)
         triage_gw(ctx, viols, stalls, stall_props)
